@@ -43,6 +43,19 @@ Definition alloc_of {A} (r : res A) : N :=
   match r with Ok _ a => a | Err a => a | Panic => 0 end.
 Definition is_panic {A} (r : res A) : bool := match r with Panic => true | _ => false end.
 
+(* `good P b r`: r is not a panic, its explicit reservations stay within b bytes, and a returned
+   value satisfies P.  This is the shape of every positive theorem of this property. *)
+Definition good {A} (P : A -> Prop) (b : N) (r : res A) : Prop :=
+  match r with
+  | Ok a n => P a /\ n <= b
+  | Err n => n <= b
+  | Panic => False
+  end.
+
+(* an element decoder that never panics, reserves nothing and consumes between 1 and len bytes *)
+Definition elem_ok {V} (elem : list N -> res (V * N)) : Prop :=
+  forall data, good (fun '(_, k) => 1 <= k <= nlen data) 0 (elem data).
+
 Definition ISIZE_MAX : N := W63 - 1.
 
 (* ---------- checked primitives ---------- *)
@@ -254,20 +267,27 @@ Fixpoint lz_loop (limit : bool) (fuel : nat) (data : list N) (out_len : N) : res
   | S f =>
       match data with
       | [] => ret out_len
-      | 0 :: [] => Err 0
-      | 0 :: _ :: rest => lz_loop limit f rest (out_len + 1)
-      | 1 :: o0 :: o1 :: o2 :: o3 :: l0 :: l1 :: l2 :: l3 :: rest =>
-          let offset := le32 o0 o1 o2 o3 in
-          let len := le32 l0 l1 l2 l3 in
-          if (offset =? 0) || (out_len <? offset) then Err 0
-          else if limit && (MAX_DECOMPRESSED - out_len <? len) then Err 0
-          else
-            (* start_pos = result.len() - offset; every source index start_pos + (i mod offset)
-               lies below the current length, so each of the `len` iterations pushes one byte *)
-            start <- sub_usize out_len offset ;;
-            lz_loop limit f rest (out_len + len)
-      | 1 :: _ => Err 0
-      | _ :: _ => Err 0
+      | flag :: t =>
+          if flag =? 0 then
+            match t with
+            | [] => Err 0
+            | _ :: rest => lz_loop limit f rest (out_len + 1)
+            end
+          else if flag =? 1 then
+            match t with
+            | o0 :: o1 :: o2 :: o3 :: l0 :: l1 :: l2 :: l3 :: rest =>
+                let offset := le32 o0 o1 o2 o3 in
+                let len := le32 l0 l1 l2 l3 in
+                if (offset =? 0) || (out_len <? offset) then Err 0
+                else if limit && (MAX_DECOMPRESSED - out_len <? len) then Err 0
+                else
+                  (* start_pos = result.len() - offset; every source index start_pos + (i mod offset)
+                     lies below the current length, so each of the `len` iterations pushes one byte *)
+                  start <- sub_usize out_len offset ;;
+                  lz_loop limit f rest (out_len + len)
+            | _ => Err 0
+            end
+          else Err 0
       end
   end.
 Definition lz_dec (limit : bool) (data : list N) : res N := lz_loop limit (length data) data 0.
@@ -309,23 +329,23 @@ Definition decode_match_m (fixed : bool) (r : br) : res (list Z * N * br) :=
   p0 <- bit_position r ;;
   '(ty, r1) <- read_bits 3 r ;;
   '(obs, r') <-
-    (match ty with
-     | 0 => '(l, r2) <- read_bits 5 r1 ;; ret ([0; 0; l + 1], r2)
-     | 1 => '(dp, r2) <- read_bits 32 r1 ;; '(l, r3) <- read_bits 16 r2 ;;
-            if l <? 6 then Err 0 else ret ([1; dp; l], r3)
-     | 2 => '(bv, r2) <- read_bits 8 r1 ;; '(l, r3) <- read_bits 5 r2 ;; ret ([2; bv; l + 2], r3)
-     | 3 => '(d, r2) <- read_bits 3 r1 ;; '(l, r3) <- read_bits 2 r2 ;; ret ([3; d + 2; l + 2], r3)
-     | 4 => '(d, r2) <- read_bits 8 r1 ;; '(l, r3) <- read_bits 5 r2 ;; ret ([4; d + 2; l + 2], r3)
-     | 5 => '(d, r2) <- read_bits 16 r1 ;; '(l, r3) <- read_bits 5 r2 ;; ret ([5; d + 258; l + 2], r3)
-     | 6 => '(d, r2) <- read_bits 16 r1 ;; '(v, r3) <- var_len r2 ;;
-            if fixed then
-              (* fix: widen to u32, add 34, reject what does not fit u16 *)
-              if 65535 <? v + 34 then Err 0 else ret ([6; d; v + 34], r3)
-            else
-              (* before the fix: `v as u16 + 34` in u16 arithmetic *)
-              l <- add_u16 (v mod 65536) 34 ;; ret ([6; d; l], r3)
-     | _ => '(d, r2) <- read_bits 24 r1 ;; '(v, r3) <- var_len r2 ;; ret ([7; d; v + 34], r3)
-     end) ;;
+    (if ty =? 0 then '(l, r2) <- read_bits 5 r1 ;; ret ([0; 0; l + 1], r2)
+     else if ty =? 1 then
+       '(dp, r2) <- read_bits 32 r1 ;; '(l, r3) <- read_bits 16 r2 ;;
+       if l <? 6 then Err 0 else ret ([1; dp; l], r3)
+     else if ty =? 2 then '(bv, r2) <- read_bits 8 r1 ;; '(l, r3) <- read_bits 5 r2 ;; ret ([2; bv; l + 2], r3)
+     else if ty =? 3 then '(d, r2) <- read_bits 3 r1 ;; '(l, r3) <- read_bits 2 r2 ;; ret ([3; d + 2; l + 2], r3)
+     else if ty =? 4 then '(d, r2) <- read_bits 8 r1 ;; '(l, r3) <- read_bits 5 r2 ;; ret ([4; d + 2; l + 2], r3)
+     else if ty =? 5 then '(d, r2) <- read_bits 16 r1 ;; '(l, r3) <- read_bits 5 r2 ;; ret ([5; d + 258; l + 2], r3)
+     else if ty =? 6 then
+       '(d, r2) <- read_bits 16 r1 ;; '(v, r3) <- var_len r2 ;;
+       if fixed then
+         (* fix: widen to u32, add 34, reject what does not fit u16 *)
+         if 65535 <? v + 34 then Err 0 else ret ([6; d; v + 34], r3)
+       else
+         (* before the fix: `v as u16 + 34` in u16 arithmetic *)
+         l <- add_u16 (v mod 65536) 34 ;; ret ([6; d; l], r3)
+     else '(d, r2) <- read_bits 24 r1 ;; '(v, r3) <- var_len r2 ;; ret ([7; d; v + 34], r3)) ;;
   p1 <- bit_position r' ;;
   bits <- sub_usize p1 p0 ;;
   ret (map Z.of_N obs, bits, r').
@@ -408,6 +428,10 @@ Definition run_model (pid arg : N) (data : list N) : option (res (list Z)) :=
   | 81 => Some (hex_to_slice arg data)
   | _ => None
   end.
+
+Definition model_ids : list N :=
+  [1; 2; 3; 10; 11; 12; 13; 14; 15; 16; 20; 21; 22; 23; 24; 25; 26;
+   30; 31; 32; 33; 34; 35; 36; 40; 41; 42; 43; 44; 45; 46; 61; 70; 71; 80; 81].
 
 (* what the child process reported: 0 = value, 1 = error, 2 = panic / abort / timeout.
    A run whose explicit reservations exceed the child's address-space limit is expected to crash. *)
